@@ -126,6 +126,17 @@ def discharge(S, ob, leaf_types=None, invariants=None):
                     n = byte_len(S, atom[1])
                     if n is None or n != atom[2]:
                         allok = False
+                elif atom[0] == "icmp":
+                    ra, rb = iv.range(atom[2]), iv.range(atom[3])
+                    op = atom[1]
+                    if op == "Lt":
+                        truth = True if ra[1] < rb[0] else (False if ra[0] >= rb[1] else None)
+                    elif op == "Le":
+                        truth = True if ra[1] <= rb[0] else (False if ra[0] > rb[1] else None)
+                    else:
+                        truth = None
+                    if truth is None or truth != pol:
+                        allok = False
                 else:
                     allok = False
             if allok:
